@@ -42,9 +42,12 @@ func (kr NumKeyRange) MapKey() string {
 	return fmt.Sprintf("%d-%d", kr.Start, kr.End)
 }
 
-// Contains check if range contains i
+// Contains check if range contains i.
+// Every range is half-open: ParseNumSharding computes End as the start of the
+// next table, so no configured range is open-ended, not even one whose End
+// happens to be MaxNumKey.
 func (kr NumKeyRange) Contains(i int64) bool {
-	return kr.Start <= i && (kr.End == MaxNumKey || i < kr.End)
+	return kr.Start <= i && i < kr.End
 }
 
 func (kr NumKeyRange) String() string {
